@@ -245,6 +245,14 @@ class Normalizer:
                     valid = M.before.get((b['id'], i))
                     if not valid:
                         continue
+                    if isinstance(s, dict) and s.get('k') == 'decl':
+                        # the initialiser of a candidate stays as written during a round: its recorded operand set (and with
+                        # it the validity computed above) describes THAT expression; chains resolve at the use sites in
+                        # the next round, under the validity of the use site
+                        for v in s.get('vars', []):
+                            if v['id'] not in cand and v.get('init') is not None:
+                                v['init'] = subst(v['init'], valid)
+                        continue
                     b['stmts'][i] = subst(s, valid)
                 t = b.get('term')
                 if t and t.get('cond') is not None:
